@@ -17,8 +17,11 @@
 //!                   such a revert: fee, nonce bump, authorisation effects and authorisation refund,
 //!                   gas floor, reimbursement and the fee recipient's reward.
 //!
-//! The model is the reference of C13 for blocks run with the reserve policy alone (Prague or later);
-//! it does not model the CREATE guard (C12, not applicable to this technique).
+//! The model is the reference of C13 for blocks run with a delegated-safety policy on (Prague or later).
+//! The CREATE guard is modelled too (a CREATE / CREATE2 instruction whose frame's state account carries a
+//! delegation designator halts the frame as not-activated), so that blocks run with guard + reserve or
+//! the guard alone have a data reference as well (C12 itself stays not applicable to this technique: the
+//! guard has no schedule in it; here it is only part of the reference for C13 / C06 blocks).
 
 use crate::evmenv::{make_block, make_cfg, make_tx};
 use crate::norm::normalise;
@@ -53,6 +56,10 @@ pub struct ReserveInspector {
     frames: Vec<Vec<Debit>>,
     surviving: Vec<Debit>,
     top_gas: Option<Gas>,
+    /// the CREATE guard is on: CREATE / CREATE2 in the context of a delegated account halt the frame
+    guard: bool,
+    /// frames halted by the guard in this transaction
+    pub guard_halts: u64,
 }
 
 impl ReserveInspector {
@@ -88,6 +95,24 @@ where
             interp.gas = gas;
             interp.halt(InstructionResult::Revert);
             return;
+        }
+        // CREATE guard (property text of C12, used here only so that guard-on blocks have a data reference):
+        // CREATE / CREATE2 executed in the context of an account whose code is a delegation designator
+        // halt that frame as not-activated. The executing context is the frame's state account
+        // (`target_address`: it stays the delegated account through DELEGATECALL / CALLCODE).
+        if self.guard && matches!(interp.bytecode.opcode(), 0xf0 | 0xf5) && !interp.runtime_flag.is_static {
+            let context_account = interp.input.target_address;
+            let delegated = context
+                .journal()
+                .evm_state()
+                .get(&context_account)
+                .and_then(|a| a.info.code.as_ref())
+                .is_some_and(|c| c.is_eip7702());
+            if delegated {
+                self.guard_halts += 1;
+                interp.halt(InstructionResult::NotActivated);
+                return;
+            }
         }
         // SELFDESTRUCT is observed at the instruction itself (contract = the frame's state account, heir =
         // top of the stack). revm's `Inspector::selfdestruct` callback is not used: it reports the LAST
@@ -158,6 +183,8 @@ pub struct ModelReport {
     pub violations: Vec<usize>,
     /// transactions with at least one surviving delegated debit
     pub debit_txs: u64,
+    /// frames halted by the CREATE guard
+    pub guard_halts: u64,
     /// the model cannot decide this block (a delegated debit source is the fee recipient, whose final
     /// balance in the journal output already includes the reward)
     pub undecided: bool,
@@ -171,10 +198,12 @@ pub fn run_reserve_model_block(
     txs: &[TxSpec],
     precompiles: &[(Address, DynParallelPrecompile)],
     preload_beneficiary: bool,
+    reserve: bool,
+    guard: bool,
 ) -> ModelReport {
     let mut steps = Vec::with_capacity(txs.len());
     let mut raw = Vec::with_capacity(txs.len());
-    let mut report = ModelReport { block: RefBlock { steps: vec![], raw: vec![], error: None }, violations: vec![], debit_txs: 0, undecided: false };
+    let mut report = ModelReport { block: RefBlock { steps: vec![], raw: vec![], error: None }, violations: vec![], debit_txs: 0, guard_halts: 0, undecided: false };
     if preload_beneficiary &&
         let Err(e) = state.basic_ref(block.beneficiary)
     {
@@ -183,7 +212,8 @@ pub fn run_reserve_model_block(
     }
     let cfg = make_cfg(evm_spec);
     let spec = cfg.spec;
-    let active = spec >= SpecId::PRAGUE;
+    let active = reserve && spec >= SpecId::PRAGUE;
+    let guard = guard && spec >= SpecId::PRAGUE;
     let tx_envs: Vec<revm_context::TxEnv> = txs.iter().map(make_tx).collect();
     let mut evm = Context::mainnet()
         .with_db(&mut *state)
@@ -196,7 +226,7 @@ pub fn run_reserve_model_block(
         evm.precompiles.apply_precompile(address, move |_| Some(precompile));
     }
     for (txid, tx) in tx_envs.iter().enumerate() {
-        evm.set_inspector(ReserveInspector::default());
+        evm.set_inspector(ReserveInspector { guard, ..ReserveInspector::default() });
         let first = evm.inspect_tx(tx.clone());
         let mut result_and_state = match first {
             Ok(rs) => rs,
@@ -219,6 +249,7 @@ pub fn run_reserve_model_block(
                 return report;
             }
         };
+        report.guard_halts += evm.inspector.guard_halts;
         // ---- the rule
         let mut violation = false;
         if active {
